@@ -23,6 +23,7 @@ var cbKinds = []string{
 	"state-other-secret", "cookie-other-secret", "both-other-secret",
 	"state-garbage", "cookie-garbage", "state-truncated", "cookie-truncated", "state-empty", "state-missing",
 	"reenc-state", "reenc-cookie", "reenc-dup",
+	"rules-mixed-a", "rules-mixed-b",
 	"dup-state", "dup-cookie",
 	"replay-new-code", "replay-same-code",
 	"sessions-as-flow", "session-and-flow-value", "session-and-garbage",
@@ -93,6 +94,10 @@ func runCallback(rep *vh.Report, env vh.Env, worlds []*world, i int) {
 	kind := cbKinds[(i/len(worlds))%len(cbKinds)]
 	wordf := func(n int) string { return word(r, n) }
 	rep.Eval()
+	if strings.HasPrefix(kind, "rules-") {
+		runRules(rep, env, w, r, i, kind)
+		return
+	}
 	if strings.HasPrefix(kind, "reenc-") {
 		runReenc(rep, env, w, r, i, kind)
 		return
